@@ -156,6 +156,46 @@ Eager(nd, a, kind) ==
     [] nd.t = "debug" -> Eager(nd.x, a, kind)
     [] nd.t \in {"select", "sub"} -> IF kind = "repos" THEN <<>> ELSE Eager(nd.x, a, kind)
 
+\* A listing is a VALUE (ociregistry.Seq) that may be run more than once.  What was done
+\* when it was created is not done again; everything else is - from the beginning.
+Again(nd, a, kind) == LET s == Stream(nd, a, kind) IN SubSeq(s, Len(Eager(nd, a, kind)) + 1, Len(s))
+\* (well-formedness of that reading: the work of creation comes first and yields nothing)
+EagerFirst(nd, a, kind) ==
+  LET s == Stream(nd, a, kind)  g == Eager(nd, a, kind)
+  IN Len(g) <= Len(s) /\ SubSeq(s, 1, Len(g)) = g /\ Yields(Again(nd, a, kind)) = Yields(s)
+
+\* ------------------------------------------------------------------------
+\* One hop over an in-memory registry holding ALL of 1..m, in closed form (for universes
+\* too large to enumerate: 10^4 items).  Calls are described by their maximal runs of
+\* consecutive ranks <<lo, hi>>.  OciListMC checks that this agrees with Stream.
+Min2(x, y) == IF x < y THEN x ELSE y
+RECURSIVE BigReqs(_, _, _, _, _, _, _, _)
+BigReqs(hop, f, t, a, n, link, k, j) ==
+  LET r == t - j * n                      \* items still to come when page j is requested
+      cnt == Min2(n, r)
+      lk == r > n /\ link
+      rq == Req(hop, n, IF j = 0 THEN a ELSE Pos(f + j * n - 1), cnt, lk, IF lk THEN Pos(f + j * n + cnt - 1) ELSE -1, "")
+  IN <<rq>> \o (IF cnt = n /\ (k = 0 \/ k > (j + 1) * n) THEN BigReqs(hop, f, t, a, n, link, k, j + 1) ELSE <<>>)
+Big(nd, m, a, k) ==
+  LET n == EffN(nd.n)
+      f == a \div 2 + 1                   \* the first rank strictly after the start point
+      t == IF m >= f THEN m - f + 1 ELSE 0
+      d == IF k = 0 THEN t ELSE Min2(k, t)
+  IN IF nd.max > 0 /\ n > nd.max
+     THEN [reqs |-> <<Req(nd.hop, n, a, 0, FALSE, -1, "UNSUPPORTED")>>, runs |-> <<>>, err |-> "UNSUPPORTED"]
+     ELSE [reqs |-> BigReqs(nd.hop, f, t, a, n, nd.link, k, 0), runs |-> IF d = 0 THEN <<>> ELSE <<(<<f, f + d - 1>>)>>, err |-> ""]
+RECURSIVE RunsOf(_)
+RunsOf(xs) ==
+  IF xs = <<>> THEN <<>>
+  ELSE LET rest == RunsOf(Tail(xs)) IN
+       IF rest # <<>> /\ rest[1][1] = xs[1] + 1 THEN <<(<<xs[1], rest[1][2]>>)>> \o Tail(rest)
+       ELSE <<(<<xs[1], xs[1]>>)>> \o rest
+BigAgrees(nd, a, kind, k) ==
+  (nd.t = "http" /\ kind # "refs" /\ nd.x.t = "mem" /\ ~nd.x.absent /\ nd.x.s = 1..Cardinality(nd.x.s)) =>
+    LET o == Observed(Stream(nd, a, kind), k)
+        b == Big(nd, Cardinality(nd.x.s), a, k)
+    IN Reqs(o) = b.reqs /\ RunsOf(Items(o)) = b.runs /\ ErrOf(o) = b.err
+
 \* ------------------------------------------------------------------------
 \* What a stack exposes, independently of how it pages.
 RECURSIVE View(_, _), MayFail(_, _), Hops(_)
@@ -252,6 +292,9 @@ StrictlyAfterStart == AfterStartOf(cfg, calls)
 ErrorOnlyWithCause == ErrorCauseOf(cfg, calls, st)
 DeclinedAtK == DeclinedAtKOf(cfg, calls, st)
 BoundedRequests == BoundedOf(cfg, nreq, st)
+\* A second run of the same listing value delivers the same; the closed form agrees.
+Reiterable == (st = "run" /\ i = 0) => EagerFirst(cfg.node, cfg.a, cfg.kind)
+ClosedFormAgrees == (st = "run" /\ i = 0) => BigAgrees(cfg.node, cfg.a, cfg.kind, cfg.k)
 \* No call of the consumer (and no request) after it declined or after an error.
 StopsWhenDeclined == [][(st \in {"declined", "failed", "done"} => UNCHANGED <<calls, nreq, i>>)]_vars
 Terminates == <>(st \in {"declined", "failed", "done", "diverged"})
